@@ -7,12 +7,22 @@ props = [json.loads(l) for l in open(os.path.join(V, 'properties.jsonl'))]
 TECH = ('machine-checked proof in Coq 8.16 over an executable Gallina model + differential correspondence '
         '(extracted OCaml model vs implementation) + exact rational oracle for the failing-input search')
 CLAIMS = {
-    'C01': ('full for soundness/completeness/uniqueness of the MNA system and the reported directions; "never fails to solve" '
-            'partial (completeness of the executable Gauss-Jordan checked per run, not proved)'),
-    'C03': ('spec-level invariance theorems transported to the model by C01; state-space/transient paths by correspondence'),
-    'C04': ('linearity of the circuit equations in the sources + model of the zeroing operations; stated on first->second flows'),
-    'C05': ('Tellegen balance with the reporting conventions, sign of P/Q per element kind over an ordered field'),
-    'C16': ('model of every transformer compared exactly; contraction/open-removal map solutions to solutions'),
+    'C01': ('full: soundness, completeness and uniqueness of the MNA system w.r.t. the circuit equations, reported directions, and "a valid '
+            'network never fails to solve" (completeness of the executable Gauss-Jordan, Theory/Gauss.v)'),
+    'C02': ('full on the model: CircuitSpec of the transformed network <-> declarative PhasorSpec (jwL, 1/(jwC), A*cis(phi) iff within resolution), '
+            'RMS = peak/sqrt2, DC = real part at w=0; np.cos/np.sin/np.sqrt enter as oracle values'),
+    'C03': ('full: rename / permutation / reversal / re-grounding theorems about the model functions (any sort order), API corollaries; '
+            'state-space, transient and port-impedance paths by correspondence and oracle (see C06, C10, C12)'),
+    'C04': ('full: scaling, zero and superposition (2-block and k-block) through the model of the library\'s own zeroing operations; stated on '
+            'first->second flows'),
+    'C05': ('full: Tellegen balance with the reporting conventions, sign theorems per element kind over an ordered field, peak/RMS/DC/time-domain forms'),
+    'C07': ('full: finite-table theorems over the regenerated Gen/Tables.v (no kind dropped, dispatch, keys read subset of keys written, guards) and '
+            'C07_faithful (branch law <-> declarative component law for all 17 kinds), one branch per component, terminals, ground rule'),
+    'C08': ('partial: for all six waveforms and every phase the coefficients are proved to be the Fourier integrals of the translated time '
+            'functions (Coquelicot; classical-reals axioms), a/b/c algebra and lookup; the mean-square/Parseval clause is stated, checked '
+            'numerically, not proved'),
+    'C16': ('full for solutions-to-solutions (open removal, contraction by induction over the loop, re-grounding), names-only, exemption list, '
+            'well-posedness preserved under wf; the no-wf variant is stated only'),
 }
 NOT_YET = 'not yet built in this round (planned per DESIGN.md §6; the technique applies)'
 checks = []
